@@ -78,6 +78,61 @@ def correspondence(ctx):
                     pass
         _immutability(ctx, name, pool, rng)
         _non_ascii_digits(ctx, name, pool, rng)
+        _long_digit_runs(ctx, name, pool, rng)
+
+
+def _int_limit_region(name, text, i):
+    """the recorded region K10: schemes whose COMPARISON reads a digit run with int() and therefore cannot compare (or
+    hash) a version holding a run beyond CPython's 4300-digit limit: alpm and gem anywhere, ebuild/alpine in a suffix
+    number (_alpha/_beta/_pre/_rc/_p followed by the run).  `i` is where the long run starts."""
+    import re
+    if name in ("alpm", "gem"):
+        return "digit-run-over-int-limit"
+    if name in ("ebuild", "alpine") and re.search(r"_(alpha|beta|pre|rc|p)$", text[:i]):
+        return "digit-run-over-int-limit"
+    return None
+
+
+def _long_digit_runs(ctx, name, pool, rng):
+    """every version can be hashed: also one with a run of more than 4300 digits, where the constructor accepts it
+    (int() refuses such a text, and a hash computed with int() then fails); its zero-padded twin, when equal, has the
+    same hash"""
+    import re
+    stream = "long-digit-runs:" + name
+    cls = S.vclass(name)
+    done = 0
+    for s, _v in pool:
+        if done >= 6:
+            break
+        runs = [m.span() for m in re.finditer(r"[0-9]+", s)]
+        if not runs:
+            continue
+        i, j = rng.choice(runs)
+        t = s[:i] + str(rng.randint(1, 9)) * rng.choice([4301, 4400]) + s[j:]
+        try:
+            w = cls(t)
+        except Exception:  # noqa: BLE001 — the constructor refuses it (with which error is C11/C16's business)
+            continue
+        done += 1
+        ctx.count(stream, key=(s, i), nontrivial=True)
+        try:
+            h = hash(w)
+        except Exception as e:  # noqa: BLE001
+            ctx.disagree(stream, "hash of %s with a run of %d digits at %d" % (s, len(t) - len(s) + (j - i), i),
+                         "raises " + type(e).__name__, "a hash", True,
+                         {"scheme": name, "version_shape": s, "long_run_at": i, "clause": "hash() raises %s" % type(e).__name__,
+                          "python": "from univers.versions import %s as V; s=%r; hash(V(s[:%d] + '7'*4400 + s[%d:]))" % (cls.__name__, s, i, j)},
+                         region=_int_limit_region(name, s, i), spec="hashable")
+            continue
+        try:
+            t2 = t[:i] + "0" + t[i:]
+            w2 = cls(t2)
+            if w2 == w and hash(w2) != h:
+                ctx.disagree(stream, "zero-padded twin of %s" % s, "equal but hashes differ", "-", True,
+                             {"scheme": name, "version_shape": s, "long_run_at": i, "clause": "== without equal hash (long digit run)"},
+                             region=_region(name), spec="== implies equal hash")
+        except Exception:  # noqa: BLE001
+            pass
 
 
 def _non_ascii_digits(ctx, name, pool, rng):
